@@ -304,6 +304,7 @@ func oracleFile(in, outp string) {
 			}
 		}()
 		verdict := ""
+		armed := map[string]bool{} // a GenerateSecret of the resource registered the watch since its last replacement
 		fail := func(clause string, t []string, extra string) {
 			if verdict == "" {
 				verdict = clause + " " + wire.Enc(join(t)) + " " + wire.Enc(extra)
@@ -326,6 +327,9 @@ func oracleFile(in, outp string) {
 					return
 				}
 				r := f.op(t)
+				if t[0] == "fgen" && len(t) == 2 {
+					armed[t[1]] = true
+				}
 				if f.ca.calls() != 0 {
 					fail("file-called-ca", t, r)
 				}
@@ -349,10 +353,11 @@ func oracleFile(in, outp string) {
 					if !strings.HasPrefix(r, "ok ") || !containsAll(got, want) || strings.Trim(got, want) != "" {
 						fail("root-missing", t, r)
 					}
-				case t[0] == "fwrite":
-					if !strings.HasPrefix(r, "cb=1 other=0") {
+				case t[0] == "fwrite" && len(t) == 2:
+					if armed[t[1]] && !strings.HasPrefix(r, "cb=1 other=0") {
 						fail("file-change-unannounced", t, r)
 					}
+					armed[t[1]] = false
 				}
 			}()
 		}
